@@ -5,6 +5,8 @@ import BppModel.Text.Number
 import BppModel.Text.Glob
 import BppModel.Text.Keyval
 import BppModel.Text.Vars
+import BppModel.Text.TokenizerU
+import BppModel.Text.TokRT
 /-
 Driver for C17 (round trips and exact grammars).  Stateless: every op carries its inputs.
 Strings are hex-escaped; the implementation's doubles arrive as 16 hex digits, the model's
@@ -234,6 +236,126 @@ def step (s : Unit) (op : List String) (impl : Option (List String)) : Unit × S
     | none => (s, "bad-op", "-")
   | _ => (s, "bad-op", "-")
 
-def machine : Machine Unit := { init := fun _ => (), step := step }
+/-! ## round 2: tokenizer / table / distribution round trips -/
+
+open Bpp.Text.U Bpp.Text.RT in
+def showErr : Err → String
+  | .ub => "ub" | .std => "exc:std" | .bpp => "exc:bpp" | .hang => "hang"
+
+def showStrs (l : List Str) : String :=
+  toString l.length ++ String.join (l.map (fun t => " " ++ hex t))
+
+def unhexList : List String → Option (List Str)
+  | [] => some []
+  | h :: r =>
+    match unhex h, unhexList r with
+    | some s, some l => some (s :: l)
+    | _, _ => none
+
+/-- `n h1 … hn` -/
+def parseStrs : List String → Option (List Str)
+  | [] => none
+  | n :: hs =>
+    match nat? n, unhexList hs with
+    | some n, some l => if l.length == n then some l else none
+    | _, _ => none
+
+open Bpp.Text.U Bpp.Text.RT in
+/-- `st.rt`: constructor, `unparseRemainingTokens`, `min k n` calls of `nextToken`, unparse again,
+one more `nextToken` when every token was read -/
+def stRtModel (s d : Str) (solid ae : Bool) (k : Nat) : String :=
+  match mkTokenizer s d solid ae with
+  | .error e => showErr e
+  | .ok T =>
+    let kk := min k T.tokens.length
+    match T.unparseRemainingTokens, nextN kk T with
+    | .ok u0, .ok (toks, T') =>
+      match T'.unparseRemainingTokens with
+      | .ok uk =>
+        let e := if kk == T.tokens.length then (match T'.nextToken with | .error .bpp => "x" | _ => "!") else "-"
+        showStrs T.tokens ++ " / " ++ showStrs T.splits ++ " / " ++ hex u0 ++ " / " ++ showStrs toks ++ " / "
+          ++ hex uk ++ " / " ++ e
+      | .error e => showErr e
+    | .error e, _ => showErr e
+    | _, .error e => showErr e
+
+open Bpp.Text.U Bpp.Text.RT in
+/-- the predicates of `Props/C17Tokenizer.lean` on the implementation's answer -/
+def stRtVerdict (s d : Str) (solid ae : Bool) (k : Nat) (impl : Option (List String)) : String :=
+  match impl with
+  | none => "-"
+  | some t =>
+    match splitTok "/" t with
+    | [ptoks, psplits, [hu0], pk, [huk], [e]] =>
+      match parseStrs ptoks, parseStrs psplits, unhex hu0, parseStrs pk, unhex huk with
+      | some tokens, some splits, some u0, some ktoks, some uk =>
+        let kk := min k tokens.length
+        if !ctorRtOk s d solid ae tokens splits u0 then "FAIL:unparse_tokenize"
+        else if ktoks != tokens.take kk || !advanceRtOk tokens splits kk u0 uk
+            || (kk == tokens.length && e != "x") then "FAIL:unparse_after_next"
+        else "ok"
+      | _, _, _, _, _ => "FAIL:parse"
+    | _ => "-"                                                    -- raised: nothing to judge here
+
+open Bpp.Text.U Bpp.Text.RT in
+/-- `nst.rt`: the same script on a NestedStringTokenizer -/
+def nstRtModel (s op en d : Str) (solid : Bool) (k : Nat) : String :=
+  match mkNested s op en d solid with
+  | .error e => showErr e
+  | .ok T =>
+    let kk := min k T.tokens.length
+    match T.unparseRemainingTokens, nextN kk T with
+    | .ok u0, .ok (toks, T') =>
+      match T'.unparseRemainingTokens with
+      | .ok uk =>
+        let e := if kk == T.tokens.length then (match T'.nextToken with | .error .bpp => "x" | _ => "!") else "-"
+        showStrs T.tokens ++ " / " ++ showStrs T.splits ++ " / " ++ hex u0 ++ " / " ++ showStrs toks ++ " / "
+          ++ hex uk ++ " / " ++ e
+      | .error e => showErr e
+    | .error e, _ => showErr e
+    | _, .error e => showErr e
+
+open Bpp.Text.U Bpp.Text.RT in
+/-- the predicates of `Props/C17Nested.lean` on the implementation's answer -/
+def nstRtVerdict (s op en d : Str) (solid : Bool) (k : Nat) (impl : Option (List String)) : String :=
+  match impl with
+  | none => "-"
+  | some t =>
+    match splitTok "/" t with
+    | [ptoks, psplits, [hu0], pk, [huk], [e]] =>
+      match parseStrs ptoks, parseStrs psplits, unhex hu0, parseStrs pk, unhex huk with
+      | some tokens, some splits, some u0, some ktoks, some uk =>
+        let kk := min k tokens.length
+        if !nestedRtOk s d solid tokens splits u0 then "FAIL:nested_rejoin"
+        else if (match saneBrackets op en d with
+                 | some (o, c) => !nestedDepthOk d o c solid tokens
+                 | none => false) then "FAIL:nested_balanced_all"
+        else if ktoks != tokens.take kk || !advanceRtOk tokens splits kk u0 uk
+            || (kk == tokens.length && e != "x") then "FAIL:nested_unparse_after_next"
+        else "ok"
+      | _, _, _, _, _ => "FAIL:parse"
+    | _ => "-"                                                    -- raised: nothing to judge here
+
+def stepRT (s : Unit) (op : List String) (impl : Option (List String)) : Unit × String × String :=
+  match op with
+  | ["st.rt", hs, hd, so, al, k] =>
+    match unhex hs, unhex hd, nat? k with
+    | some str, some d, some k =>
+      (s, stRtModel str d (so == "1") (al == "1") k, stRtVerdict str d (so == "1") (al == "1") k impl)
+    | _, _, _ => (s, "bad-op", "-")
+  | ["nst.rt", hs, ho, he, hd, so, k] =>
+    match unhex hs, unhex ho, unhex he, unhex hd, nat? k with
+    | some str, some o, some e, some d, some k =>
+      (s, nstRtModel str o e d (so == "1") k, nstRtVerdict str o e d (so == "1") k impl)
+    | _, _, _, _, _ => (s, "bad-op", "-")
+  | _ => (s, "bad-op", "-")
+
+def step' (s : Unit) (op : List String) (impl : Option (List String)) : Unit × String × String :=
+  match op with
+  | "st.rt" :: _ => stepRT s op impl
+  | "nst.rt" :: _ => stepRT s op impl
+  | _ => step s op impl
+
+def machine : Machine Unit := { init := fun _ => (), step := step' }
 
 end Bpp.Drive.C17
